@@ -426,12 +426,33 @@ def run_routine(ctx, case):
             Q, T, _ = lanczos(A, v, max_iters=k, tol=1e-12)
             judge_output(ctx, "lanczos.Q", Q, {"truncated": k < n})
             judge_output(ctx, "lanczos.T", T, {})
+            if (rng.random() < 0.3 or case.get("force_breakdown")) and n >= 3:
+                # a batch in which one start vector is an eigenvector: its Krylov space is exhausted after one step while the
+                # other column continues (the frozen columns of the exhausted one are zero)
+                w_, E_ = np.linalg.eigh(np.asarray(A.to_dense()))
+                Vb = np.stack([E_[:, 0], np.asarray(v)], axis=1).astype(np.asarray(v).dtype if np.iscomplexobj(v) else E_.dtype)
+                TAP.on = False
+                Qb, Tb, _ = lanczos(A, Vb, max_iters=min(k, n - 1) + 1, tol=1e-10)
+                TAP.on = True
+                Db = np.asarray(Qb.to_dense())
+                for j in range(Db.shape[0]):
+                    judge_output(ctx, "lanczos.Q[batched]", Qb, {"breakdown": j == 0}, dense=Db[j])
         elif r == "arnoldi":
             A = B.build({"k": "Dense", "shape": [n, n], "dt": dt, "seed": S.seed(rng), "gen": "normal"})
             k = int(rng.integers(1, n))  # m < n: m+1 <= n orthonormal columns exist
             v = P.operand(case["seed"], (n, ), dt, "normal")
             Q, H, _ = arnoldi(A, v, max_iters=k, tol=1e-12)
-            judge_output(ctx, "arnoldi.Q", Q, {})
+            judge_output(ctx, "arnoldi.Q", Q, {"breakdown": False})
+            if (rng.random() < 0.3 or case.get("force_breakdown")) and k >= 2:
+                # a start vector in an invariant subspace of dimension 1 or 2 (breakdown: the remaining columns are zero)
+                w_, E_ = np.linalg.eig(np.asarray(A.to_dense()))
+                ev = E_[:, 0]
+                ve = (ev if dt in P.CPLX else (ev.real if np.abs(ev.imag).max() < 1e-12 else None))
+                if ve is not None:
+                    TAP.on = False  # (judged on the returned operator; the creation tap cannot tell a breakdown run from another)
+                    Qe, He, _ = arnoldi(A, ve.astype(P.DT[dt]), max_iters=k, tol=1e-10)
+                    TAP.on = True
+                    judge_output(ctx, "arnoldi.Q", Qe, {"breakdown": True})
         elif r == "eig":
             kind = S.pick(rng, ["herm", "general", "Identity", "Diagonal", "Triangular"])
             k = int(rng.integers(1, n + 1))
